@@ -24,7 +24,9 @@ CLASSES = ["valid", "first-byte", "second-byte", "zero-ps0", "zero-ps3", "zero-p
            # version octets next to the right ones: one above the ClientHello's legacy version (what a TLS 1.3 capable
            # client lists in supported_versions) and TLS 1.3's own.  (The NEGOTIATED version in place of the offered one
            # is tolerated by design - "buggy IE clients" - and is no class here.)
-           "ver-plus1", "ver-0304"]
+           "ver-plus1", "ver-0304",
+           # correctly padded messages of one / two / three octets
+           "len1", "len2", "len3"]
 
 
 def craft(cls, n, e, k, client_version, rnd):
@@ -45,6 +47,8 @@ def craft(cls, n, e, k, client_version, rnd):
         msg = pm + bytearray([7])
     elif cls == "empty-msg":
         msg = bytearray()
+    elif cls in ("len1", "len2", "len3"):
+        msg = pm[:int(cls[3:])]
     elif cls == "ver-garbage":
         pm[0], pm[1] = 9, 9
         msg = pm
